@@ -40,6 +40,7 @@ static void* get_table(int layout, int inverse, int native, uint64_t m) {
   return TAB[layout][inverse][native][k];
 }
 
+static int64_t force_resonant_j = -1;  // >= 0: the output index the resonant family concentrates its energy on
 static void gen_input(rng_t* r, int fam, uint64_t m, double* re, double* im) {
   const long double pi = 3.141592653589793238462643383279502884197L;
   switch (fam) {
@@ -69,6 +70,7 @@ static void gen_input(rng_t* r, int fam, uint64_t m, double* re, double* im) {
     case X_RESONANT: {
       // x_n = conj(z^n) with z the evaluation point of output j: all the energy goes to one output
       uint64_t j = (uint64_t)rng_range(r, 0, (int64_t)m - 1);
+      if (force_resonant_j >= 0) j = (uint64_t)force_resonant_j % m;
       uint64_t t = bitrev(j, ilog2(m));
       for (uint64_t n = 0; n < m; n++) {
         long double ang = pi * (long double)((1 + 4 * t) * n % (4 * m)) / (long double)(2 * m);
@@ -548,6 +550,23 @@ void run_C06(void) {
               if ((impl == I_LEAF_REF || impl == I_LEAF_AVX) && m > 16) continue;
               fft_case(layout, impl, inverse, m, fam, rep);
             }
+  }
+  // resonant inputs on the outputs where table generators have their special cases: the first and last blocks, both sides of the
+  // half and of the quarter (a single imprecise twiddle only shows when the energy sits on an output that uses it); large m
+  {
+    static const uint64_t RM[] = {65536, 16384, 4096};
+    for (size_t mi = 0; mi < (th ? 3u : 2u); mi++)
+      for (int layout = 0; layout < 2; layout++)
+        for (int inverse = 0; inverse < (th ? 2 : 1); inverse++) {
+          const uint64_t m = RM[mi];
+          const int64_t centres[] = {0, (int64_t)m, (int64_t)(m / 2), (int64_t)(m / 4), (int64_t)(3 * m / 4)};
+          for (size_t c = 0; c < ARRAY_LEN(centres); c++)
+            for (int64_t d = (c == 0 ? 0 : -48); d < (c == 1 ? 0 : 48); d++) {
+              force_resonant_j = centres[c] + d;
+              fft_case(layout, I_NATIVE, inverse, m, X_RESONANT, 900000 + (unsigned)force_resonant_j);
+            }
+        }
+    force_resonant_j = -1;
   }
   for (int native = 1; native >= 0; native--)
     for (unsigned rep = 0; rep < (th ? 300u : 16u); rep++) table_lifecycle_case(native, rep);
